@@ -384,7 +384,9 @@ fn inspect<M: ZooMsg + ?Sized>(m: &M) -> Result<(usize, usize, Val, bool, Option
     guarded(|| {
         let size = m.size();
         let view = m.as_bytes();
-        let view_len = view.len();
+        // extent of the handed-out value: what its own byte view spans and what the reference
+        // itself claims (size_of_val rounds an unsized struct up to its alignment)
+        let view_len = view.len().max(core::mem::size_of_val(m));
         let _ = crate::zoo::take_invalid();
         let val = m.read();
         let invalid = crate::zoo::take_invalid().map(|s| s.to_string());
